@@ -275,7 +275,7 @@ func (c *Ctx) slotExtent(T *types.Named, key string) {
 				}
 			}
 		}
-		if sl, ok := v.(*ssa.Slice); ok && sl.Low == nil && sl.High != nil && w.fn.Parent() != nil && pop == nil {
+		if sl, ok := v.(*ssa.Slice); ok && sl.Low == nil && sl.High != nil && pop == nil {
 			if ld, _, ok := sameSlotLoad(sl.X, key); ok {
 				fi := newFuncInfo(w.fn)
 				// the new length is at least the old one minus one
@@ -296,43 +296,72 @@ func (c *Ctx) slotExtent(T *types.Named, key string) {
 		c.sfail(rule, "-", what+": push and deferred pop", token.NoPos, "the push/pop pair of the scanner stack was not found")
 		return
 	}
+	// where the push and the pop happen in terms of the run function P: the store itself, or the
+	// one call of a helper that holds the store and nothing else that writes the field
+	var pushSite ssa.Instruction = push.st
 	P := push.fn
-	// the pop closure is made in P and only deferred there, after the push
+	if sites := staticCallSites(push.fn); len(sites) == 1 && !exportedAPI(push.fn) {
+		nw := 0
+		for _, w := range writers {
+			if w.fn == push.fn {
+				nw++
+			}
+		}
+		if nw == 1 {
+			pushSite, P = sites[0], sites[0].Parent()
+		}
+	}
 	deferOK := false
-	if pop.fn.Parent() == P {
-		for _, b := range P.Blocks {
-			for _, ins := range b.Instrs {
-				mc, ok := ins.(*ssa.MakeClosure)
-				if !ok || mc.Fn != ssa.Value(pop.fn) {
-					continue
-				}
-				refs := *mc.Referrers()
-				only := true
-				var df *ssa.Defer
-				for _, r := range refs {
-					switch r := r.(type) {
-					case *ssa.Defer:
-						if r.Call.Value == ssa.Value(mc) {
-							df = r
-						} else {
-							only = false
+	var popDefer *ssa.Defer
+	for _, b := range P.Blocks {
+		for _, ins := range b.Instrs {
+			df, ok := ins.(*ssa.Defer)
+			if !ok {
+				continue
+			}
+			switch {
+			case df.Call.StaticCallee() == pop.fn && pop.fn.Parent() == nil:
+				// a helper: every other use of it would be a pop outside the discipline
+				uses := 0
+				for _, caller := range c.modFuncs {
+					for _, bb := range caller.Blocks {
+						for _, in := range bb.Instrs {
+							for _, op := range in.Operands(nil) {
+								if *op == ssa.Value(pop.fn) {
+									uses++
+								}
+							}
 						}
-					case *ssa.DebugRef:
-					default:
-						only = false
 					}
 				}
-				if only && df != nil && insBefore(push.st, df) {
-					deferOK = true
+				if uses == 1 && !exportedAPI(pop.fn) {
+					popDefer = df
+				}
+			default:
+				if mc, ok := df.Call.Value.(*ssa.MakeClosure); ok && mc.Fn == ssa.Value(pop.fn) {
+					only := true
+					for _, r := range *mc.Referrers() {
+						switch r.(type) {
+						case *ssa.Defer, *ssa.DebugRef:
+						default:
+							only = false
+						}
+					}
+					if only {
+						popDefer = df
+					}
 				}
 			}
 		}
+	}
+	if popDefer != nil && insBefore(pushSite, popDefer) && pushSite != ssa.Instruction(popDefer) {
+		deferOK = true
 	}
 	if !deferOK {
 		good = false
 		bad(P.String(), "deferred pop", pop.st.Pos(), "the function that removes the top of the scanner stack is not (only) deferred by the pushing function after its push")
 	} else {
-		c.sok(rule, P.String(), what+": push, then the pop is deferred", push.st.Pos(), "append in the run function dominates the defer of the closure holding the only other store", "")
+		c.sok(rule, P.String(), what+": push, then the pop is deferred", pushSite.Pos(), "the push (the append, or the one call of the helper holding it) dominates the defer of the function holding the only other store", "")
 	}
 	if !good {
 		return
@@ -372,7 +401,7 @@ func (c *Ctx) slotExtent(T *types.Named, key string) {
 		if n := cg.Nodes[f]; n != nil {
 			for _, e := range n.Out {
 				if f == P && e.Site != nil && e.Site.Parent() == P {
-					if _, isDefer := e.Site.(*ssa.Defer); !isDefer && insBefore(push.st, e.Site) {
+					if _, isDefer := e.Site.(*ssa.Defer); !isDefer && pushSite != ssa.Instruction(e.Site) && insBefore(pushSite, e.Site) {
 						continue // made after the push, before the deferred pop
 					}
 				}
